@@ -22,6 +22,7 @@ from .value import (
     TypedValue,
     TypeVarValue,
     Value,
+    flatten_values,
     is_overlapping,
     unannotate,
     unite_values,
@@ -55,6 +56,9 @@ class IsAssignablePredicate:
     pattern_value: Value
     ctx: CanAssignContext
     positive_only: bool
+    runtime_check: bool = False
+    """Whether the predicate stands for a runtime ``isinstance()`` check, to which
+    the int/float/complex promotion does not apply."""
 
     def __call__(self, value: Value, positive: bool) -> Optional[Value]:
         compatible = is_overlapping(self.pattern_value, value, self.ctx)
@@ -71,8 +75,49 @@ class IsAssignablePredicate:
             if self.pattern_value.is_assignable(
                 value, self.ctx
             ) and not is_universally_assignable(value, unannotate(self.pattern_value)):
+                if self.runtime_check:
+                    return _remainder_after_failed_isinstance(value, self.pattern_value)
                 return None
         return value
+
+
+# Types that are assignable to the key only because of the numeric promotion
+# (an int is acceptable where a float is expected, but it is not an instance of float).
+_PROMOTED_TYPES = {float: (int,), complex: (float, int)}
+
+
+def _remainder_after_failed_isinstance(
+    value: Value, pattern_value: Value
+) -> Optional[Value]:
+    """What remains of a value that is statically assignable to the pattern when a
+    runtime isinstance() check against the pattern failed."""
+    pattern_types = []
+    for subval in flatten_values(pattern_value, unwrap_annotated=True):
+        if isinstance(subval, TypedValue) and isinstance(subval.typ, type):
+            pattern_types.append(subval.typ)
+        else:
+            return None
+    inner = unannotate(value)
+    if isinstance(inner, KnownValue):
+        try:
+            is_instance = isinstance(inner.val, tuple(pattern_types))
+        except Exception:
+            return None
+        return None if is_instance else value
+    if isinstance(inner, TypedValue) and isinstance(inner.typ, type):
+        if not safe_issubclass(inner.typ, tuple(pattern_types)):
+            # Not a runtime subclass, e.g. an int that was accepted as a float.
+            return value
+        if inner.typ in _PROMOTED_TYPES:
+            # A value declared as float may be an int at runtime.
+            remaining = [
+                TypedValue(typ)
+                for typ in _PROMOTED_TYPES[inner.typ]
+                if not safe_issubclass(typ, tuple(pattern_types))
+            ]
+            if remaining:
+                return unite_values(*remaining)
+    return None
 
 
 _OPERATOR = {
